@@ -251,3 +251,46 @@ Fixpoint sparse_fields (fs : list (text * ty)) (inst : list (text * val)) : list
   | [] => []
   | (k, ft) :: r => sparse_of ft (match aget inst k with Some x => x | None => VNone end) :: sparse_fields r inst
   end.
+
+(** values of member type [t] that object_to_simple_dict can write and the notation can carry:
+    attribute dicts list exactly the declared members, lists carry no index bookkeeping,
+    primitive arrays that are present are non-empty, objects that are present have a member set *)
+Fixpoint names_eqb (a b : list text) : bool :=
+  match a, b with
+  | [], [] => true
+  | x :: a', y :: b' => text_eqb x y && names_eqb a' b'
+  | _, _ => false
+  end.
+Definition is_none (v : val) : bool := match v with VNone => true | _ => false end.
+Fixpoint typed (t : ty) (v : val) {struct t} : bool :=
+  match t with
+  | TPrim arr =>
+      match v with
+      | VNone => true
+      | VStr _ => negb arr
+      | VList l => arr && negb (is_nil l)
+      | _ => false
+      end
+  | TObj arr fs =>
+      let obj (inst : list (text * val)) :=
+        names_eqb (map fst inst) (map fst fs) &&
+        (fix go (fs : list (text * ty)) : bool :=
+           match fs with
+           | [] => true
+           | (k, ft) :: r => typed ft (match aget inst k with Some x => x | None => VNone end) && go r
+           end) fs &&
+        existsb (fun kv => negb (is_none (snd kv))) inst in
+      match v with
+      | VNone => true
+      | VObj inst => negb arr && obj inst
+      | VArr m l => arr && is_nil m && forallb (fun e => match e with VObj inst => obj inst | _ => false end) l
+      | _ => false
+      end
+  end.
+Fixpoint typed_members (fs : list (text * ty)) (inst : list (text * val)) : bool :=
+  match fs with
+  | [] => true
+  | (k, ft) :: r => typed ft (match aget inst k with Some x => x | None => VNone end) && typed_members r inst
+  end.
+Definition typed_obj (fs : list (text * ty)) (inst : list (text * val)) : bool :=
+  names_eqb (map fst inst) (map fst fs) && typed_members fs inst.
